@@ -109,6 +109,35 @@ func runC10(c *Ctx) {
 				attached["parser"] = el
 			}
 		})
+		// a later RemoveErrorListeners on the same recognizer would detach the collecting listener again
+		addCalls := map[string]ssa.Instruction{}
+		eachInstr(f, func(in ssa.Instruction) {
+			if call, ok := in.(*ssa.Call); ok && call.Call.StaticCallee() != nil && call.Call.StaticCallee().Name() == "AddErrorListener" && len(call.Call.Args) == 2 {
+				rec := x.recognizerOf(call.Call.Args[0])
+				if rec == ssa.Value(lexer) {
+					addCalls["lexer"] = in
+				}
+				if rec == ssa.Value(psr) {
+					addCalls["parser"] = in
+				}
+			}
+		})
+		eachInstr(f, func(in ssa.Instruction) {
+			call, ok := in.(*ssa.Call)
+			if !ok || call.Call.StaticCallee() == nil || call.Call.StaticCallee().Name() != "RemoveErrorListeners" {
+				return
+			}
+			rec := x.recognizerOf(call.Call.Args[0])
+			for which, r := range map[string]ssa.Value{"lexer": lexer, "parser": psr} {
+				if rec != r || addCalls[which] == nil {
+					continue
+				}
+				if _, after := pathExists(f, addCalls[which], func(i2 ssa.Instruction) bool { return i2 == in }, nil); after {
+					attached[which] = nil
+					c.Check("K1-pipelines-agree", key+"#"+which+"-listener-removed", false, in.Pos(), "RemoveErrorListeners on the %s runs after the collecting error listener was attached: its errors are no longer seen", which)
+				}
+			}
+		})
 		c.Check("K1-pipelines-agree", key+"#lexer-listener", attached["lexer"] != nil, lexer.Pos(), "a GengineErrorListener must be attached to the lexer (token recognition errors)")
 		c.Check("K1-pipelines-agree", key+"#parser-listener", attached["parser"] != nil && attached["parser"] != attached["lexer"], psr.Pos(), "a separate GengineErrorListener must be attached to the parser")
 		// walk with the listener over psr.Primary()
